@@ -843,6 +843,15 @@ class Machine(Interp):
         return env_locals
 
     def call_function(self, f, args, kwargs, node=None):
+        # trusted stubs of repository functions that wrap native libraries (LAPACK): enabled per contract (``stubs``)
+        st = getattr(self, "repo_stubs", None)
+        if st and isinstance(f.node, ast.FunctionDef):
+            key = f.qual
+            if key in st:
+                from . import lib
+
+                self.assumption_notes.add("trusted stub for %s -- %s" % (key, lib.REPO_STUB_NOTES.get(key, "")))
+                return lib.REPO_STUBS[key](self, args, kwargs, node)
         # modular reasoning: use the callee's contract when one is registered for modular use
         if self.registry is not None and isinstance(f.node, ast.FunctionDef):
             c = self.registry.modular_contract(f.qual)
